@@ -45,6 +45,17 @@ func GenRandom(out string, seed int64, n, maxPts int) error {
 		c := Case{Kind: "ext", Id: i, Gen: gens[r.Intn(len(gens))], Path: path, Sides: 3 + r.Intn(10), Rad: 1 + r.Intn(3),
 			Radii: []int{}, Close: r.Intn(2) == 0, Uv: r.Intn(2) == 0, Stencil: stencils[r.Intn(len(stencils))],
 			N: 2 + r.Intn(12), Up: ups[r.Intn(len(ups))], H: r.Intn(3), A: []int{0, 0, 0}, B: []int{0, 0, 0}, Xfs: []Xf{}}
+		if c.Gen == "line" {
+			// a ribbon needs a width direction: an `up` parallel to no ring direction
+			// (unit(in)+unit(out) of consecutive steps); another generator if there is none
+			c.Gen = "polygon"
+			for _, up := range ups {
+				if upUsable(path, up) {
+					c.Gen, c.Up = "line", up
+					break
+				}
+			}
+		}
 		if r.Intn(2) == 0 {
 			k := len(path)
 			if c.Gen == "spline" {
@@ -62,4 +73,36 @@ func GenRandom(out string, seed int64, n, maxPts int) error {
 		w.WriteByte('\n')
 	}
 	return nil
+}
+
+func sgn(x int) int {
+	if x > 0 {
+		return 1
+	}
+	if x < 0 {
+		return -1
+	}
+	return 0
+}
+
+func upUsable(path [][]int, up []int) bool {
+	unit := func(a, b []int) [3]int { return [3]int{sgn(b[0] - a[0]), sgn(b[1] - a[1]), sgn(b[2] - a[2])} }
+	for k := range path {
+		var d [3]int
+		if k > 0 {
+			u := unit(path[k-1], path[k])
+			d[0], d[1], d[2] = d[0]+u[0], d[1]+u[1], d[2]+u[2]
+		}
+		if k < len(path)-1 {
+			u := unit(path[k], path[k+1])
+			d[0], d[1], d[2] = d[0]+u[0], d[1]+u[1], d[2]+u[2]
+		}
+		cx := up[1]*d[2] - up[2]*d[1]
+		cy := up[2]*d[0] - up[0]*d[2]
+		cz := up[0]*d[1] - up[1]*d[0]
+		if cx == 0 && cy == 0 && cz == 0 {
+			return false
+		}
+	}
+	return true
 }
